@@ -22,7 +22,7 @@ Extraction "c01_model.ml"
   c01_Z_abs c01_Z_abs2 c01_G_absreal c01_G_abs2 c01_Z_cmp4
   c01_kdesc_of c01_kernel_gen c01_kernel_objs c01_dg_kernel_gen c01_rightmultiply_self_literal c01_leftmultiply_self_literal
   c01_cell_leftmultiply_literal c01_cell_rightmultiply_literal c01_cell_leftmultiply c01_cell_rightmultiply c01_cell_inplace
-  c01_cell_neg_literal c01_cell_neg c01_cell_binop
+  c01_cell_neg_literal c01_cell_neg c01_cell_binop c01_vec_elem_literal c01_vec_elem
   c01_vec_inplace_objs c01_vec_inplace c01_vec_inplace_self c01_view_binop c01_resize c01_mresize c01_dg_exists
   c01_rightmultiply_self c01_leftmultiply_self c01_fv1_op c01_fv1_op_l c01_fv1_conv c01_fm11_conv
   c01_param_dense_mv c01_param_diag_mv
